@@ -510,10 +510,27 @@ def run_check(prop: str, tier: str, replay: str | None, module) -> int:
         found = None
         if hasattr(module, "search"):
             sctx = Ctx(prop, tier, seed, None, log)
+            # the search is best-effort and capped (a broken tie must not turn the check into a timeout): whatever oracle
+            # failures were recorded before the cap are used
+            import signal
+            cap = int(getattr(module, "SEARCH_CAP_S", 120 if tier == "quick" else 300))
+
+            class _SearchTimeout(Exception):
+                pass
+
+            def _on_alarm(signum, frame):
+                raise _SearchTimeout()
+            old_handler = signal.signal(signal.SIGALRM, _on_alarm)
+            signal.alarm(cap)
             try:
                 module.search(sctx, [d["case"] for d in ctx.disagreements])
-            except Exception as e:  # the search is best-effort
+            except _SearchTimeout:
+                log(f"[{prop}] search stopped after {cap}s (cap)")
+            except Exception as e:
                 log(f"[{prop}] search raised {e!r}")
+            finally:
+                signal.alarm(0)
+                signal.signal(signal.SIGALRM, old_handler)
             for f in sctx.failures:
                 if f["site"] not in known_sites:
                     found = f
